@@ -289,7 +289,11 @@ func runVF11(p *Prog, r *RuleRun) {
 				f.TS["crc"] = "mismatch"
 				delete(f.TS, "rewound")
 			}
-			if !f.Must["ReadAt:ok"] {
+			crcSide := bo.X
+			if other == bo.X {
+				crcSide = bo.Y
+			}
+			if !f.Must["ReadAt:ok"] && !crcOverReadBack(p, crcSide) {
 				f.TS["crc-src"] = "not-read-back"
 			}
 		},
@@ -332,6 +336,60 @@ func runVF11(p *Prog, r *RuleRun) {
 	} else {
 		r.OK(funcDisplay(root)+":crc-comparison", p.Position(root.Pos()), "recovery compares crc32 over read-back bytes with a stored value")
 	}
+}
+
+// crcOverReadBack: every crc32 call the value derives from hashes a buffer that a ReadAt in the same function
+// filled (one read of the whole range, or a chunked loop: the data argument and the ReadAt buffer are the same
+// slice or slices of one base).
+func crcOverReadBack(p *Prog, v ssa.Value) bool {
+	var calls []*ssa.Call
+	derivesFromCallDeep(p, v, func(c *ssa.Call) bool {
+		if n := eventName(c); n == "crc32.Checksum" || n == "crc32.Update" {
+			calls = append(calls, c)
+		}
+		return false // keep walking: collect all of them
+	}, 0)
+	if len(calls) == 0 {
+		return false
+	}
+	base := func(v ssa.Value) ssa.Value {
+		for i := 0; i < 6; i++ {
+			switch x := v.(type) {
+			case *ssa.Slice:
+				v = x.X
+				continue
+			case *ssa.Phi:
+				if len(x.Edges) > 0 {
+					v = x.Edges[0]
+					continue
+				}
+			}
+			break
+		}
+		return v
+	}
+	for _, c := range calls {
+		data := c.Call.Args[0]
+		if eventName(c) == "crc32.Update" {
+			data = c.Call.Args[2]
+		}
+		ok := false
+		for _, b := range c.Parent().Blocks {
+			for _, ins := range b.Instrs {
+				rc, isCall := ins.(*ssa.Call)
+				if !isCall || !strings.HasSuffix(eventName(rc), ".ReadAt") || len(rc.Call.Args) < 1 {
+					continue
+				}
+				if base(rc.Call.Args[0]) == base(data) {
+					ok = true
+				}
+			}
+		}
+		if !ok {
+			return false
+		}
+	}
+	return true
 }
 
 // derivesFromCallDeep is derivesFromCall that also looks through the results of production helper functions.
